@@ -97,4 +97,98 @@ end
 def imgHolds (img : Img) (mem : Nat → Option UInt8) : Bool :=
   img.all fun (a, b) => mem a == some b
 
+/-! ### the heap: collections with a known header layout
+
+`imgAt` leaves the words of a `Vec`/`String` header and everything behind them open.  `holdsAt` reads memory as a
+whole: for a collection whose schema records where pointer and length lie in the header, the data the pointer
+leads to has to hold the elements, recursively. -/
+
+/-- memory: a byte per readable address -/
+abbrev Mem := Nat → Option UInt8
+
+def memHas (mem : Mem) : Nat → Bytes → Bool
+  | _, [] => true
+  | a, b :: bs => (mem a == some b) && memHas mem (a + 1) bs
+
+/-- little-endian word of `n` bytes at `a`, if all of it is readable -/
+def readWordLE (mem : Mem) : Nat → Nat → Option Nat
+  | _, 0 => some 0
+  | a, n + 1 =>
+    match mem a, readWordLE mem (a + 1) n with
+    | some b, some r => some (b.toNat + 256 * r)
+    | _, _ => none
+
+/-- positions (in 8 byte words) of the data pointer and of the length in a `Vec`/`String`/slice header -/
+def VLayout.words : VLayout → Option (Nat × Nat)
+  | .unknown => none
+  | .dataCapLen => some (0, 2)
+  | .dataLenCap => some (0, 1)
+  | .capDataLen => some (1, 2)
+  | .lenDataCap => some (1, 0)
+  | .capLenData => some (2, 1)
+  | .lenCapData => some (2, 0)
+  | .lenData => some (1, 0)
+  | .dataLen => some (0, 1)
+
+/-- the header of a collection at `base` under layout `lay`: (address of the data, number of elements) -/
+def headerAt (mem : Mem) (base : Nat) (lay : VLayout) : Option (Nat × Nat) :=
+  match lay.words with
+  | none => none
+  | some (d, l) =>
+    match readWordLE mem (base + 8 * d) 8, readWordLE mem (base + 8 * l) 8 with
+    | some p, some n => some (p, n)
+    | _, _ => none
+
+mutual
+/-- `mem` holds, at `base`, a representation of `x` as the schema prescribes it — the heap data of vectors and
+    strings with a known header layout included, recursively.  Where the schema prescribes nothing (padding,
+    pointers of boxes and references, collections of unknown layout) nothing is demanded. -/
+def holdsAt (mem : Mem) (base : Nat) : Schema → V → Bool
+  | .prim p, v =>
+    if p.plain then
+      match v with
+      | .num n => memHas mem base (leBytes p.memSize n)
+      | _ => false
+    else
+      match p, v with
+      | .str lay, .bytes b =>
+        match lay with
+        | .unknown => true
+        | _ =>
+          match headerAt mem base lay with
+          | some (ptr, n) => (n == b.length) && memHas mem ptr b
+          | none => false
+      | _, _ => true
+  | .struct _ _ _ fs, .tup l => holdsFields mem base fs l
+  | .enum _ vs dsize _ _ _, .alt i (.tup l) =>
+    match variantAt vs i with
+    | some (discr, fs) => memHas mem base (leBytes dsize discr) && holdsFields mem base fs l
+    | none => false
+  | .array t _, .tup l =>
+    match schemaSize t with
+    | some k => holdsElems mem base k t l
+    | none => false
+  | .zeroSize, _ => true
+  | .vector t lay, .seq l =>
+    match lay with
+    | .unknown => true
+    | _ =>
+      match headerAt mem base lay, schemaSize t with
+      | some (ptr, n), some k => (n == l.length) && holdsElems mem ptr k t l
+      | _, _ => false
+  | .vector _ _, _ => true
+  | .boxed _, _ => true
+  | .reference _, _ => true
+  | .slice _, _ => true
+  | .str, _ => true
+  | _, _ => false
+def holdsFields (mem : Mem) (base : Nat) : SFieldL → VL → Bool
+  | .nil, .nil => true
+  | .cons _ t (some off) rest, .cons x xs => holdsAt mem (base + off) t x && holdsFields mem base rest xs
+  | _, _ => false
+def holdsElems (mem : Mem) (base : Nat) (stride : Nat) (t : Schema) : VL → Bool
+  | .nil => true
+  | .cons x xs => holdsAt mem base t x && holdsElems mem (base + stride) stride t xs
+end
+
 end Sfv
